@@ -217,11 +217,48 @@ def corrupt_tqc(rng, c, qc):
     q = copy.deepcopy(qc)
     n = len(c)
     kinds = ["none", "none", "overlap", "overlap_signed", "overlap_signed", "empty_group", "wrong_len", "entry_view", "nested_qc", "hv_genesis",
-             "drop_signer", "agg_drop", "agg_dup", "agg_other", "view_epoch", "view_genesis", "swap_groups"]
+             "drop_signer", "agg_drop", "agg_dup", "agg_other", "view_epoch", "view_genesis", "swap_groups",
+             "nested_qc_twin", "nested_qc_twin"]
     k = rng.choice(kinds)
     if not q["map"]:
         return "none", q
     j = rng.below(len(q["map"]))
+    if k == "nested_qc_twin":
+        # a second entry whose high QC is for the SAME vote as a genuine one in another entry but is not backed by
+        # a quorum (a signature dropped / a signer bit cleared); sorted before or after the genuine entry through
+        # its high vote.  Every nested certificate must be verified, not one per certified vote.
+        cand = [x for x in range(len(q["map"])) if q["map"][x][0]["hq"] is not None]
+        donors = [x for x in range(len(q["map"])) if sum(q["map"][x][1]) >= 2]
+        if not cand or not donors:
+            return "none", q
+        j = rng.choice(cand)
+        t0 = q["map"][j][0]
+        t2 = copy.deepcopy(t0)
+        vn = int(t0["v"]["n"])
+        if rng.chance(2, 3):       # sorts after the genuine entry: a higher high vote
+            base_v = int(t0["hv"]["v"]["n"]) if t0["hv"] is not None else -1
+            t2["hv"] = M.commit(M.view(G, E, min(base_v + 1, max(vn - 1, 0))), M.header(7, 2))
+        else:                       # sorts before it
+            t2["hv"] = None if t0["hv"] is not None else t2["hv"]
+        if rng.chance(1, 2) and t2["hq"]["agg"]:
+            t2["hq"]["agg"] = t2["hq"]["agg"][:-1]
+        else:
+            on = [i for i, b in enumerate(t2["hq"]["signers"]) if b]
+            if on:
+                t2["hq"]["signers"][on[0]] = 0
+        if json.dumps(t2, sort_keys=True) == json.dumps(t0, sort_keys=True) or any(json.dumps(t2, sort_keys=True) == json.dumps(e[0], sort_keys=True) for e in q["map"]):
+            return "none", q
+        d = rng.choice(donors)
+        i = [x for x in range(n) if q["map"][d][1][x]][0]
+        q["map"][d][1][i] = 0
+        old_sig = M.sig_timeout(c[i][0], q["map"][d][0])
+        for x, sg in enumerate(q["agg"]):
+            if sg == old_sig:
+                q["agg"].pop(x)
+                break
+        q["map"].append([t2, [1 if x == i else 0 for x in range(n)]])
+        q["agg"].append(M.sig_timeout(c[i][0], t2))
+        return k, q
     if k == "overlap" and len(q["map"]) >= 2:
         a = q["map"][j][1]
         b = q["map"][(j + 1) % len(q["map"])][1]
